@@ -24,9 +24,16 @@ func init() { common.RegisterFlags() }
 func runRouter(h *common.History) {
 	d := time.Duration(common.AtoI64(h.Conf[1]))
 	j := time.Duration(common.AtoI64(h.Conf[2]))
-	v, err := vnet.VerifNewDelayRouter(d, j, 0)
+	jitter := j
+	if h.Conf[0] == "3" {
+		jitter = 0
+	}
+	v, err := vnet.VerifNewDelayRouter(d, jitter, 0)
 	if err != nil {
 		panic(err)
+	}
+	if h.Conf[0] == "3" {
+		v.Sink.Block = j // mode 3: the third parameter is how long the downstream NIC blocks per chunk
 	}
 	t0 := time.Now()
 	for i, op := range h.Ops {
@@ -37,8 +44,8 @@ func runRouter(h *common.History) {
 		h.Ops[i][0] = common.I(int64(time.Since(t0))) // with jitter the push may be delayed by the router's mutex
 		v.Push(common.AtoI(op[1]), 8)
 	}
-	if h.Conf[0] == "0" {
-		time.Sleep(d + j + time.Second)
+	if h.Conf[0] == "0" || h.Conf[0] == "3" {
+		time.Sleep(d + time.Duration(len(h.Ops)+1)*j + time.Second)
 		synctest.Wait()
 	} else {
 		// real time (a jittering router sleeps while holding its mutex, which a synctest bubble cannot wait for)
@@ -138,6 +145,31 @@ func gen(r *rand.Rand, mode int) *common.History {
 	h := &common.History{}
 	n := 5 + r.IntN(40)
 	switch mode {
+	case 3:
+		// router in virtual time whose downstream NIC blocks for a while per chunk: arrivals around the
+		// delay and around the blocking time, bursts and gaps
+		d = []int64{10000000, 20000000, 5000000}[r.IntN(3)]
+		blk := []int64{d / 4, d / 2, d, 2 * d, d/2 + 1}[r.IntN(5)]
+		n = 3 + r.IntN(12)
+		h.Conf = []string{"3", common.I(d), common.I(blk)}
+		now := int64(0)
+		for i := 0; i < n; i++ {
+			switch r.IntN(7) {
+			case 0:
+				now += 0
+			case 1:
+				now += blk / 2
+			case 2:
+				now += d / 2
+			case 3:
+				now += d + blk/2
+			case 4:
+				now += blk
+			default:
+				now += r.Int64N(2*d + 1)
+			}
+			h.Ops = append(h.Ops, []string{common.I(now), common.I(i + 1)})
+		}
 	case 0, 1:
 		jit := int64(0)
 		if mode == 1 {
@@ -205,7 +237,7 @@ func TestHarness(t *testing.T) {
 	} else {
 		r := common.Rng(a.Seed, 0x14)
 		for i := 0; i < a.N; i++ {
-			hs = append(hs, gen(r, []int{0, 0, 1, 2, 2}[i%5]))
+			hs = append(hs, gen(r, []int{0, 0, 1, 2, 2, 3}[i%6]))
 		}
 	}
 	for _, h := range hs {
@@ -216,6 +248,9 @@ func TestHarness(t *testing.T) {
 		case "1":
 			runRouter(h)
 			h.Tags = append(h.Tags, "router_jitter_realtime")
+		case "3":
+			synctest.Test(t, func(*testing.T) { runRouter(h) })
+			h.Tags = append(h.Tags, "router_blocking_downstream_virtual_time")
 		default:
 			synctest.Test(t, func(*testing.T) { runRouter(h) })
 			h.Tags = append(h.Tags, "router_exact_virtual_time")
